@@ -140,6 +140,27 @@ def rule_V1(ck, rule="V1"):
             ck.rec.ob(rule + "-indep", not same, {"config": tu.cfg, "witness": fn, "obligation": "copy does not share the source's block"})
             if same:
                 ck.rec.finding(rule + "-indep", "%s:shares-block[%s]" % (fn.replace("w_", ""), ck.catkey()), "%s: the copy's data_begin() is the source's block" % fn, config=tu.cfg)
+        # ... and neither is its address table (varying-size lists): a shared table is written by the next emplace_back /
+        # erase of either vector (seeded C19_m5).  Owner fields are discovered from the constructor's summary.
+        from .rules_own import discover_owners
+        tbase = tu.arg(fn, "mem" if fn == "w_copy_ctor" else "v")
+        wbase = tu.arg(fn, "w")
+        for o in discover_owners(tu):
+            if o.kind != "table":
+                continue
+            tv = sm.final.get((tbase + o.off, 8))
+            if not isinstance(tv, Lin):
+                continue  # field not written: the target keeps its own table
+            src_tab = atom(("mem", wbase + o.off, 8))
+            shared = False
+            for ff in case_split([tv], extend(f, c_not(c_cmp("eq", src_tab, ZERO))), max_cases=16):
+                d = simplify(tv, ff) - src_tab
+                if d.is_const() and d.c == 0:
+                    shared = True
+            ck.rec.ob(rule + "-indep", not shared, {"config": tu.cfg, "witness": fn, "obligation": "copy does not share the source's address table"})
+            if shared:
+                ck.rec.finding(rule + "-indep", "%s:shares-table[%s]" % (fn.replace("w_", ""), ck.catkey()),
+                               "%s: the copy's address table pointer (+%d) is the source's table on some path" % (fn, o.off), config=tu.cfg)
     for fn in ("w_move_ctor", "w_move_assign"):
         if not tu.has(fn):
             continue
